@@ -11,6 +11,7 @@ import (
 	"io"
 	"net"
 	"strings"
+	"sync/atomic"
 	"time"
 
 	"nhooyr.io/websocket/internal/errd"
@@ -341,6 +342,7 @@ func (c *Conn) handleControl(ctx context.Context, h header) (err error) {
 	}
 
 	err = fmt.Errorf("received close frame: %w", ce)
+	atomic.StoreInt32(&c.closeFrameReceived, int32(ce.Code))
 	c.writeClose(ce.Code, ce.Reason)
 	simYield("hc.closing.1", c)
 	c.readMu.unlock()
